@@ -685,6 +685,8 @@ func TestC23(t *testing.T) {
 	m.Gate("prestate_same_result_on_success", m.N(100000, 5000000), "successful reads repeated into a garbage-filled destination with identical result")
 	m.Gate("prestate_failures_observed", m.N(500000, 25000000), "failing reads repeated into a garbage-filled destination")
 	m.Gate("sequence_reads_into_reused_variable", m.N(50000, 2500000), "elements of a SEQUENCE decoded into one reused variable and compared with the reference")
+	m.Gate("out_aliases_receiver_success", m.N(50000, 2500000), "successful reads whose out parameter is the receiver itself, compared with a read into a separate variable")
+	m.Gate("out_aliases_receiver_failure", m.N(100000, 5000000), "failing reads whose out parameter is the receiver itself")
 	m.Gate("aliased_values_held", m.N(20000, 1000000), "slices sharing memory with the String re-checked after later reads")
 	m.Gate("builder_args_checked", m.N(10000, 500000), "Add* arguments verified unchanged")
 	m.Gate("builder_outputs_checked", m.N(20000, 1000000), "AddASN1* outputs compared with the reference encoder")
@@ -844,6 +846,96 @@ func runReaders(m *mon.M, readers []reader, in []byte, kindName, mutName string)
 		m.Violation("reader-modified-input:PeekASN1Tag", map[string]any{"input": mon.FullHex(trunc(in))})
 	}
 	aliasCheck(m, in)
+	aliasReceiverCheck(m, in)
+}
+
+// aliasReceiverCheck: for every method whose out parameter is a *String (or a *[]byte that can be the receiver
+// itself) the in-place idiom d.Method(&d, ...) must report the same ok as a call into a separate variable and, on
+// success, leave in d exactly the slice the separate call stores in out (content for in-place descent). After a
+// failed call the state of d is only counted.
+func aliasReceiverCheck(m *mon.M, in []byte) {
+	if len(in) > 4096 {
+		return
+	}
+	own, other := tagsFor(in)
+	type am struct {
+		name string
+		// call reports ok and whether out is written on this success path
+		call func(s, out *cryptobyte.String) (ok, written bool)
+	}
+	k := min(3, len(in))
+	ms := []am{
+		{"ReadASN1", func(s, out *cryptobyte.String) (bool, bool) { return s.ReadASN1(out, asn1.Tag(own)), true }},
+		{"ReadASN1Element", func(s, out *cryptobyte.String) (bool, bool) { return s.ReadASN1Element(out, asn1.Tag(own)), true }},
+		{"ReadAnyASN1", func(s, out *cryptobyte.String) (bool, bool) { var t asn1.Tag; return s.ReadAnyASN1(out, &t), true }},
+		{"ReadAnyASN1Element", func(s, out *cryptobyte.String) (bool, bool) {
+			var t asn1.Tag
+			return s.ReadAnyASN1Element(out, &t), true
+		}},
+		{"ReadASN1Bytes", func(s, out *cryptobyte.String) (bool, bool) {
+			return s.ReadASN1Bytes((*[]byte)(out), asn1.Tag(own)), true
+		}},
+		{"ReadOptionalASN1", func(s, out *cryptobyte.String) (bool, bool) {
+			var p bool
+			ok := s.ReadOptionalASN1(out, &p, asn1.Tag(own))
+			return ok, p
+		}},
+		{"ReadOptionalASN1", func(s, out *cryptobyte.String) (bool, bool) {
+			var p bool
+			ok := s.ReadOptionalASN1(out, &p, asn1.Tag(other))
+			return ok, p
+		}},
+		{"ReadOptionalASN1OctetString", func(s, out *cryptobyte.String) (bool, bool) {
+			var p bool
+			return s.ReadOptionalASN1OctetString((*[]byte)(out), &p, asn1.Tag(own)), true
+		}},
+		{"ReadASN1Integer(*[]byte)", func(s, out *cryptobyte.String) (bool, bool) { return s.ReadASN1Integer((*[]byte)(out)), true }},
+		{"ReadASN1BitStringAsBytes", func(s, out *cryptobyte.String) (bool, bool) { return s.ReadASN1BitStringAsBytes((*[]byte)(out)), true }},
+		{"ReadUint8LengthPrefixed", func(s, out *cryptobyte.String) (bool, bool) { return s.ReadUint8LengthPrefixed(out), true }},
+		{"ReadUint16LengthPrefixed", func(s, out *cryptobyte.String) (bool, bool) { return s.ReadUint16LengthPrefixed(out), true }},
+		{"ReadUint24LengthPrefixed", func(s, out *cryptobyte.String) (bool, bool) { return s.ReadUint24LengthPrefixed(out), true }},
+		{"ReadBytes", func(s, out *cryptobyte.String) (bool, bool) { return s.ReadBytes((*[]byte)(out), k), true }},
+	}
+	backing := newGuarded(in)
+	cp := backing[:len(in)]
+	for _, a := range ms {
+		s1 := cryptobyte.String(cp)
+		var out cryptobyte.String
+		ok1, written := a.call(&s1, &out)
+		d := cryptobyte.String(cp)
+		var ok2 bool
+		pv, stack := mon.Panics(func() { ok2, _ = a.call(&d, &d) })
+		m.Eval()
+		wit := func() map[string]any {
+			return map[string]any{"method": a.name, "input": mon.FullHex(trunc(in)), "separate_ok": ok1, "separate_out": mon.Hex(out), "aliased_ok": ok2, "aliased_receiver_after": mon.Hex(d)}
+		}
+		switch {
+		case pv != nil:
+			w := wit()
+			w["panic"] = fmt.Sprint(pv)
+			m.Violation("panic:"+mon.PanicSite(stack), w)
+		case ok1 != ok2:
+			m.Violation("out-aliases-receiver-wrong:"+a.name, wit())
+		case ok1 && written:
+			m.Count("out_aliases_receiver_success", 1)
+			if len(d) != len(out) || (len(d) > 0 && &d[0] != &out[0]) {
+				m.Violation("out-aliases-receiver-wrong:"+a.name, wit())
+			}
+		case ok1: // optional element absent: nothing is written, the receiver stays where it was
+			m.Count("out_aliases_receiver_absent", 1)
+			if len(d) != len(cp) || (len(d) > 0 && &d[0] != &cp[0]) {
+				m.Violation("out-aliases-receiver-wrong:"+a.name, wit())
+			}
+		default:
+			m.Count("out_aliases_receiver_failure", 1)
+			if len(d) != len(cp) {
+				m.Count("receiver-modified-on-failure(not judged):"+a.name, 1)
+			}
+		}
+	}
+	if !guardedIntact(backing, in) {
+		m.Violation("reader-modified-input:out-aliases-receiver", map[string]any{"input": mon.FullHex(trunc(in))})
+	}
 }
 
 const guardLen = 24
